@@ -501,6 +501,43 @@ func checkEmptyForms(c *Ctx, re *Rule) {
 			re.Check(okg, bc.Name(), desc, rs.Pos(), why, "BuildCondition returns a non-empty condition list on a path where neither len(conds) > 0 nor a non-empty query string was established", "facts: "+strings.Join(facts.List(), ", "))
 			return true
 		})
+		// the bare-value fallback (`Delete(&T{}, ids)`, `Where(ids)`): an IN over the primary column is a condition only when
+		// its value list is non-empty - an empty list renders `IN (NULL)` (and `IS NOT NULL` under Not), i.e. an empty
+		// slice would count as a condition
+		inT := p.Named(pkgClause, "IN")
+		parents := parentMap(bc.Body)
+		ast.Inspect(bc.Body, func(n ast.Node) bool {
+			lit, ok := n.(*ast.CompositeLit)
+			if !ok {
+				return true
+			}
+			if tv, ok := info.Types[lit]; !ok || !types.Identical(tv.Type, inT) {
+				return true
+			}
+			col := compositeField(lit, "Column")
+			if col == nil || !strings.HasSuffix(canon(info, col), "PrimaryColumn") {
+				return true
+			}
+			vals := compositeField(lit, "Values")
+			if vals == nil {
+				re.Bad(bc.Name(), "IN over the primary column", lit.Pos(), "IN literal without a value list")
+				return true
+			}
+			v := canon(info, vals)
+			facts, _ := gs.At(lit.Pos())
+			okv := facts.Has(fFalse("len(" + v + ") == 0"))
+			why := "len(" + v + ") > 0"
+			if !okv {
+				// the list being ranged over by an enclosing loop has at least the current element
+				for cur := ast.Node(lit); cur != nil && !okv; cur = parents[cur] {
+					if rs, ok := cur.(*ast.RangeStmt); ok && canon(info, rs.X) == v {
+						okv, why = true, "inside `range "+v+"`"
+					}
+				}
+			}
+			re.Check(okv, bc.Name(), "IN over the primary column from "+v, lit.Pos(), why, "a bare list of values becomes `primary key IN (...)` without a dominating test that the list is non-empty: an empty slice (e.g. make([]T, 0, n)) renders IN (NULL) - or IS NOT NULL under Not - and counts as a condition", "facts: "+strings.Join(facts.List(), ", "))
+			return true
+		})
 	}
 
 }
